@@ -21,6 +21,10 @@ CHECKS = {
    technique="TLC exhaustive model check of an implementation-shaped TLA+ spec of the supervisor; TLC behaviours and counterexamples replayed on the real supervisor through gated verif hooks; recorded steps judged by a TLA+ property acceptor (trace validation)",
    text="impl/Supervisor.tla models hsms/supervisor.go at the grain of its critical sections (commit CAS / echo enqueue / dequeue+load / apply / notifier, closed latch and sentinel, drop-oldest buffer). TLC explores every interleaving within the constants and checks the observable-level C05 formulas (E37 edges, no echo replay, T7 safety, closed stays closed, notification chain, final agreement). Thousands of TLC-generated behaviours (random walks of a larger model + every counterexample) are replayed step by step on the REAL supervisor with real CAS commits and the real step(), gated at the commit and state-load seams; every recorded step is judged by the property-level acceptor TraceE37; model-vs-code drift is measured (0 on the unchanged tree).",
    note="Trusted: the environment assumptions of impl/Supervisor.tla (stated in the module), the verif driver hsms/export_verif.go (calls only real code), TLC. Known findings F1 and F5 (known_findings.json) are reproduced on every run and reported as KNOWN-FINDING. End-to-end C05 clauses over real transports are covered by the C07/C08/C10 recordings."),
+ "C08": dict(cat="model_checking", engine="hsmsss-e2e", design="§3.2, §4 C08",
+   technique="TLA+ transducer of the HSMS-SS responder (impl/HsmsSS) folded by TLC over recorded frame exchanges between a scripted raw peer and live hsmsss connections (trace validation)",
+   text="A raw scripted peer that shares no code with go-secs plays every sequence of an 19-symbol frame alphabet (every control SType incl. orphan responses and Reject.req, data primary/secondary, foreign session id, control frame with body, non-zero PType, undefined STypes, foreign-sid S9F1, second TCP connection) up to length 2 (quick) / 3 (thorough) plus longer random sequences, one frame per Linktest barrier and as single-/split-write bursts (data pipelined behind Select.req / Select.rsp), against live passive and active hsmsss connections over loopback TCP with session-id validation on and off. TLC (OracleHsmsSS) folds impl/HsmsSS!Respond over the frames the peer wrote and must reproduce every frame read back (status, reason, echoed type byte, session id, system bytes), handler deliveries, link liveness and State().",
+   note="Trusted: the E37 answer tables as transcribed in spec/impl/HsmsSS.tla and fn/HsmsFrame.tla, the raw peer (harness/peerkit), loopback TCP, Linktest barriers as FIFO fence. Sequences are bounded; bursts with Select followed by Deselect are excluded because known finding F1 makes them racy (decided by C05)."),
 }
 
 NA = {
@@ -57,6 +61,8 @@ def main():
                serves_properties=["C03", "C04"], kind_free_text="TLA+ E37 frame reference; ndjson spec-as-oracle pass"),
           dict(name="supervisor-mc", path="spec/impl/Supervisor.tla spec/mc/MC_Supervisor.tla spec/trace/TraceE37.tla harness/cmd/vh/c05.go /repo/hsms/export_verif.go",
                serves_properties=["C05"], kind_free_text="TLC exhaustive + simulation; gated replay on the real supervisor; TLA+ trace acceptor"),
+          dict(name="hsmsss-e2e", path="spec/impl/HsmsSS.tla spec/trace/OracleHsmsSS.tla harness/peerkit harness/lab harness/cmd/vh/c08.go",
+               serves_properties=["C07", "C08"], kind_free_text="scripted raw HSMS peer over loopback TCP; TLA+ transducer as trace acceptor"),
         ],
         checks=checks, not_applicable=na,
         notes="All checks rebuild the Go harness from /repo's working tree (-tags verif). Exit 2 = inconclusive (never a violation).")
